@@ -52,6 +52,7 @@ def _walk(meth, callee, lst, reverse):
     else:
         inv.append("seq_eq(%s, oldlist(%s))" % (lst, lst))
     inv.append(OWN.format(l=lst))
+    inv.append("implies(old(self.done), self.done)")
     post_order = ("forall(lambda j: implies(0 <= j and j < len({l}), ct_is(j, '{c}', oldlist({l})[{idx}])))"
                   .format(l=lst, c=callee, idx=("len(%s) - 1 - j" % lst) if reverse else "j"))
     contract(FF, "Framer." + meth, "C06", params={"self": Ref("Framer"), lst: LF},
@@ -63,8 +64,10 @@ def _walk(meth, callee, lst, reverse):
              local_ensures=["ct_len() == len(%s)" % lst, post_order])
 
 
-OTHER_FRAMERS_SELF = havoc_all_but(FRAMER_RUN_FIELDS, keep=["self"], wf=[ACTIVES_OWNED])
-KEEP_SELF = ["self.actives is old(self.actives) and self.active is old(self.active) and self.done == old(self.done)"
+OTHER_FRAMERS_SELF = framers_may_change(keep=["self"])
+# .done is not kept: an exit / enter / renter / rexit act may be a `done` act (sets it True, never back)
+KEEP_SELF = ["self.actives is old(self.actives) and self.active is old(self.active) and "
+             "implies(old(self.done), self.done)"
              " and self.elapsed == old(self.elapsed) and self.recurred == old(self.recurred) "
              "and self.stamp == old(self.stamp)"]
 
@@ -96,14 +99,15 @@ contract(FF, "Framer.enter", "C06,C11", params=dict(self=Ref("Framer"), enters=L
                              "implies(len(enters) == 0, self.elapsed == old(self.elapsed) and "
                              "self.recurred == old(self.recurred) and self.stamp == old(self.stamp))",
                              "self.actives is old(self.actives) and self.active is old(self.active) "
-                             "and self.done == old(self.done)"])},
+                             "and implies(old(self.done), self.done)"])},
          ensures=["seq_eq(enters, oldlist(enters))",
                   # C11: clocks restart exactly when the outline changes (something is entered)
                   "implies(len(enters) > 0, self.elapsed == 0 and self.recurred == 0 and "
                   "self.stamp == self.store.stamp and self.elapsedShr.value == 0 and self.recurredShr.value == 0)",
                   "implies(len(enters) == 0, self.elapsed == old(self.elapsed) and "
                   "self.recurred == old(self.recurred) and self.stamp == old(self.stamp))",
-                  "self.actives is old(self.actives) and self.active is old(self.active) and self.done == old(self.done)"],
+                  "self.actives is old(self.actives) and self.active is old(self.active) and "
+                  "implies(old(self.done), self.done)"],
          local_ensures=["ct_len() == len(enters) + (2 if len(enters) > 0 else 0)",
                         "implies(len(enters) > 0, ct_is(0, 'Framer.restartTimer', self) and "
                         "ct_is(1, 'Framer.restartCounter', self))",
@@ -131,7 +135,8 @@ contract(FF, "Framer.exitAll", "C05,C06,C03", params=dict(self=Ref("Framer"), ab
          assumes=[OWN.format(l="self.actives")],
          modifies=[OTHER_FRAMERS_SELF, "self.active", "self.actives", "self.human", "self.done"],
          ensures=["len(self.actives) == 0", "self.active is None",
-                  "self.done == (old(self.done) if abort else True)",
+                  # not aborting: completed; aborting: .done is left to the exit acts (a `done` exit act may set it)
+                  "implies(not abort, self.done)", "implies(abort and old(self.done), self.done)",
                   # the outline list object itself is not reversed (a copy is)
                   "seq_eq(old(self.actives), oldlist(self.actives))"],
          local_ensures=["ct_len() == 2", "ct_is(0, 'Framer.exit', self)", "ct_is(1, 'Framer.deactivate', self)",
@@ -145,7 +150,7 @@ contract(FF, "Framer.enterAll", "C05,C06", params=dict(self=Ref("Framer")),
          modifies=[OTHER_FRAMERS_SELF, "self.done", "self.active", "self.actives", "self.human",
                    "self.humanShr.value", "self.activeShr.value", "self.stamp", "self.elapsed", "self.recurred",
                    "self.elapsedShr.value", "self.recurredShr.value"],
-         ensures=["not self.done", "self.active is self.first", "self.actives is self.first.outline"],
+         ensures=["self.active is self.first", "self.actives is self.first.outline"],
          local_ensures=["ct_len() == 2", "ct_is(0, 'Framer.activate', self, self.first)",
                         "ct_is(1, 'Framer.enter', self, self.first.outline)"])
 
@@ -167,7 +172,7 @@ contract(FA, "Transiter.action", "C06,C08",
          params=dict(self=Ref("Transiter"), needs=List(Ref("Act")), near=Ref("Frame"), far=Ref("Frame"), human=STR),
          requires=[FR + ".humanShr is not " + FR + ".activeShr"],
          assumes=[OWN_FR.format(l=FR + ".actives"), OWN_FR.format(l="far.outline"), c08_guards.AUX_WF],
-         modifies=[havoc_all_but(FRAMER_RUN_FIELDS, keep=[FR], wf=[ACTIVES_OWNED]),
+         modifies=[framers_may_change(keep=[FR]),
                    FR + ".active", FR + ".actives", FR + ".human", FR + ".humanShr.value", FR + ".activeShr.value",
                    FR + ".stamp", FR + ".elapsed", FR + ".recurred", FR + ".elapsedShr.value",
                    FR + ".recurredShr.value"],
